@@ -41,7 +41,7 @@ AXES = [
     ('time_dtype', ['uint64', 'int64']),
     ('alf_samples', [True, False]),
     ('alf_clock', ['rate', 'sync']),
-    ('geometry', ['grid', 'rect']),      # rect: sites share x and y values (still distinct positions)
+    ('geometry', ['grid', 'rect', 'grid_mm']),      # rect: sites share x and y values (still distinct positions)
     ('attrs', ['none', '1d', '2d', 'wronglen', 'col', 'row']),
     ('content', ['finite', 'nan_amp', 'inf_wm', 'nan_similar', 'nan_template', 'nan_features',
                  'nan_template_channel']),
